@@ -64,6 +64,40 @@ func main() {
 		selfish.Self = selfish
 		pd["selfish"] = selfish
 		pd["envs"] = []interface{}{envT{Name: "in-array", Vars: pd}}
+		// the way back to the data map through every kind of typed container, held in exported and unexported
+		// fields of its element type (fmt follows unexported fields as well)
+		type rowU struct {
+			Name  string
+			owner map[string]interface{}
+		}
+		type rowE struct {
+			Name  string
+			Owner map[string]interface{}
+		}
+		type rowI struct {
+			Name string
+			any  interface{}
+		}
+		type rowS struct {
+			Name string
+			list []interface{}
+		}
+		type rowN struct {
+			Name  string
+			inner rowU
+		}
+		pd["rowsU"] = []rowU{{"a", pd}}
+		pd["arrU"] = [1]rowU{{"a", pd}}
+		pd["mapU"] = map[string]rowU{"k": {"a", pd}}
+		pd["rowsE"] = []rowE{{"a", pd}}
+		pd["rowsI"] = []rowI{{"a", pd}}
+		pd["rowsS"] = []rowS{{"a", []interface{}{pd}}}
+		pd["rowsN"] = []rowN{{"a", rowU{"b", pd}}}
+		pd["nestU"] = []interface{}{[]rowU{{"a", pd}}}
+		pd["mapsU"] = map[string][]rowU{"k": {{"a", pd}}}
+		pd["ptrsU"] = []*rowU{{"a", pd}}
+		pd["rowU"] = rowU{"a", pd}
+		pd["arr2U"] = [2][]rowU{nil, {{"a", pd}}}
 		rn.SetThis(pd)
 		var v interface{}
 		pan, _ := protect(func() { v, err = rn.Resolve(context.Background(), src.Expression) })
